@@ -8,7 +8,7 @@ from hypothesis import strategies as st
 from . import common
 from .clustersim import SimAbort, simulate
 from .common import Chooser, Stats, Violation
-from .genjob import build_job, job_specs, spec_edges
+from .genjob import build_job, job_specs, same_value, spec_edges
 from .refeval import evaluate
 
 from cascade.low.core import DatasetId  # noqa: E402
@@ -137,6 +137,20 @@ def run_sim(case: dict):
     return res
 
 
+def _not_delivered(state, ds, ref_value) -> bool:
+    """True iff the run returned without a value for the requested output. `None` is a value a task may return; the controller's
+    own "not fetched yet" placeholder (if this tree has one) is not."""
+    import cascade.scheduler.core as sched_core
+
+    if ds not in state.outputs:
+        return True
+    v = state.outputs[ds]
+    placeholder = getattr(sched_core, "NOT_FETCHED", None)
+    if placeholder is not None:
+        return v is placeholder
+    return v is None and ref_value is not None
+
+
 def general_breaches(res: dict, case: dict) -> list[tuple[str, str, str]]:
     """Oracle clauses evaluated after the run (in addition to those the simulator records on line)."""
     sim = res["sim"]
@@ -183,10 +197,10 @@ def general_breaches(res: dict, case: dict) -> list[tuple[str, str, str]]:
     # values
     ref = evaluate(job)
     for ds in job.ext_outputs:
-        if ds not in state.outputs or state.outputs[ds] is None:
+        if _not_delivered(state, ds, ref[(ds.task, ds.output)]):
             out.append(("C01", "output-missing", f"requested output {ds} was not delivered"))
             out.append(("C03", "output-missing", f"run() returned without requested output {ds}"))
-        elif state.outputs[ds] != ref[(ds.task, ds.output)]:
+        elif not same_value(state.outputs[ds], ref[(ds.task, ds.output)]):
             out.append(("C01", "output-wrong", f"requested output {ds} = {state.outputs[ds]!r}, sequential evaluation gives {ref[(ds.task, ds.output)]!r}"))
     extra = set(state.outputs) - set(job.ext_outputs)
     if extra:
